@@ -42,12 +42,27 @@ def _run_one(args):
         shutil.rmtree(d, ignore_errors=True)
 
 
+def library_part(patch_path, out_dir):
+    """a copy of the patch restricted to the files the checks read (src/..., the top-level CMakeLists.txt): a refactoring may also touch
+    docs, examples or tests, which the scratch copy does not contain"""
+    import os, re
+    txt = open(patch_path, errors="replace").read()
+    parts = re.split(r"(?m)^(?=diff --git )", txt)
+    keep = [p for p in parts if not p.startswith("diff --git ") or re.match(r"diff --git a/(src/|CMakeLists\.txt)", p)]
+    if len(keep) == len(parts):
+        return patch_path
+    out = os.path.join(out_dir, "library-part.diff")
+    open(out, "w").write("".join(keep))
+    return out
+
+
 def _run_patch(args):
     pid, name, patch, base = args
     d = tempfile.mkdtemp(prefix="ben-", dir=base)
     try:
         shutil.copytree(os.path.join(REPO, "src"), os.path.join(d, "src"))
         shutil.copy(os.path.join(REPO, "CMakeLists.txt"), os.path.join(d, "CMakeLists.txt"))
+        patch = library_part(patch, d)
         a = subprocess.run(["git", "apply", "--unsafe-paths", "--directory=" + d, patch], capture_output=True, text=True, cwd="/")
         if a.returncode != 0:
             a = subprocess.run(["patch", "-p1", "-s", "-d", d, "-i", patch], capture_output=True, text=True)
